@@ -194,4 +194,1524 @@ theorem optMatch_shift (g : Grammar) (alts : List Alt) (star : Bool) (p : Nat) :
 
 end prim
 
+/-! ### pairs -/
+
+mutual
+/-- add `k` to every start/stop of a pair -/
+def Pair.shift (k : Nat) : Pair → Pair
+  | .mk n m s e ch t => .mk n m (s + k) (e + k) (shiftL k ch) t
+def shiftL (k : Nat) : List Pair → List Pair
+  | [] => []
+  | p :: ps => p.shift k :: shiftL k ps
+end
+
+theorem shiftL_eq_map (k : Nat) (ps : List Pair) : shiftL k ps = ps.map (Pair.shift k) := by
+  induction ps with
+  | nil => rfl
+  | cons p ps ih => simp [shiftL, ih]
+
+theorem shiftL_append (k : Nat) (a b : List Pair) : shiftL k (a ++ b) = shiftL k a ++ shiftL k b := by
+  simp [shiftL_eq_map]
+
+mutual
+theorem visible_shift (k : Nat) : ∀ p : Pair, (p.shift k).visible = shiftL k p.visible
+  | .mk n m s e ch t => by
+    by_cases h : (hasBit m COMPOUND || hasBit m NONATOMIC) = true
+    · simp [Pair.shift, Pair.visible, h, shiftL]
+    · simp only [Pair.shift, Pair.visible, h]
+      exact visibleList_shift k ch
+theorem visibleList_shift (k : Nat) : ∀ ps : List Pair, visibleList (shiftL k ps) = shiftL k (visibleList ps)
+  | [] => by simp [shiftL, visibleList]
+  | p :: ps => by
+    simp only [shiftL, visibleList, shiftL_append, visible_shift k p, visibleList_shift k ps]
+end
+
+mutual
+theorem shift_zero : ∀ p : Pair, p.shift 0 = p
+  | .mk n m s e ch t => by simp [Pair.shift, shiftL_zero ch]
+theorem shiftL_zero : ∀ ps : List Pair, shiftL 0 ps = ps
+  | [] => rfl
+  | p :: ps => by simp [shiftL, shift_zero p, shiftL_zero ps]
+end
+
+/-! ### SOI-free expressions and grammars -/
+
+mutual
+/-- no `_SOI` body anywhere in the tree (the front end embeds `SOI` as `.rule "SOI" 2 true .soiB`) -/
+def soiFree : Expr → Bool
+  | .str _ => true
+  | .ci _ => true
+  | .range _ _ => true
+  | .ident _ _ => true
+  | .rule _ _ _ b => soiFree b
+  | .seq es => soiFreeL es
+  | .choice es => soiFreeL es
+  | .opt e => soiFree e
+  | .rep e => soiFree e
+  | .rep1 e => soiFree e
+  | .repExact e _ => soiFree e
+  | .repMin e _ => soiFree e
+  | .repMax e _ => soiFree e
+  | .repMinMax e _ _ => soiFree e
+  | .andP e => soiFree e
+  | .notP e => soiFree e
+  | .group e _ => soiFree e
+  | .push e => soiFree e
+  | .pushLit _ => true
+  | .peek => true
+  | .pop => true
+  | .drop => true
+  | .peekAll => true
+  | .popAll => true
+  | .peekSlice _ _ => true
+  | .anyB => true
+  | .soiB => false
+  | .eoiB => true
+  | .uprop _ => true
+  | .skipUntil _ => true
+  | .optChoice _ _ => true
+def soiFreeL : List Expr → Bool
+  | [] => true
+  | e :: es => soiFree e && soiFreeL es
+end
+
+/-- the grammar does not use SOI: no rule body contains it -/
+def SOIFree (g : Grammar) : Prop := ∀ r ∈ g.rules, soiFree r.body = true
+
+/-- Bool version, for `decide` -/
+def soiFreeG (g : Grammar) : Bool := g.rules.all fun r => soiFree r.body
+
+theorem soiFreeG_iff (g : Grammar) : soiFreeG g = true ↔ SOIFree g := by
+  simp [soiFreeG, SOIFree]
+
+theorem soiFreeL_iff (es : List Expr) : soiFreeL es = true ↔ ∀ e ∈ es, soiFree e = true := by
+  induction es with
+  | nil => simp [soiFreeL]
+  | cons e es ih => simp [soiFreeL, ih]
+
+theorem lookup_mem {g : Grammar} {n : String} {r : Rule} (h : g.lookup n = some r) : r ∈ g.rules :=
+  List.mem_of_find?_eq_some h
+
+theorem fusedSkip_mem {g : Grammar} {r : Rule} (h : g.fusedSkip = some r) : r ∈ g.rules := by
+  unfold Grammar.fusedSkip at h
+  cases hl : g.lookup "SKIP" with
+  | none => rw [hl] at h; cases h
+  | some q =>
+    rw [hl] at h
+    simp only [] at h
+    split at h
+    · cases h; exact lookup_mem hl
+    · cases h
+
+/-! ### the state relation -/
+
+/-- furthest-failure positions: both the sentinel, or both real and `k` apart -/
+def FposRel (k : Nat) (f f' : Int) : Prop := (f = -1 ∧ f' = -1) ∨ (0 ≤ f' ∧ f = f' + k)
+
+structure ShiftRel (k : Nat) (c c' : PState) : Prop where
+  pos : c.pos = c'.pos + k
+  ph : c.posHist = c'.posHist.map (· + k)
+  fp : FposRel k c.fpos c'.fpos
+  us : c.ustack = c'.ustack
+  rs : c.rstack = c'.rstack
+  ad : c.adepth = c'.adepth
+  tg : c.tagStack = c'.tagStack
+  nd : c.negDepth = c'.negDepth
+  sp : c.suppress = c'.suppress
+  fe : c.fexp = c'.fexp
+  fu : c.funexp = c'.funexp
+  fs : c.fstack = c'.fstack
+
+namespace ShiftRel
+variable {k : Nat} {c c' : PState}
+
+theorem setPos (s : ShiftRel k c c') {q q' : Nat} (h : q = q' + k) :
+    ShiftRel k { c with pos := q } { c' with pos := q' } :=
+  ⟨h, s.ph, s.fp, s.us, s.rs, s.ad, s.tg, s.nd, s.sp, s.fe, s.fu, s.fs⟩
+
+theorem setUstack (s : ShiftRel k c c') (u : DStack Str) :
+    ShiftRel k { c with ustack := u } { c' with ustack := u } :=
+  ⟨s.pos, s.ph, s.fp, rfl, s.rs, s.ad, s.tg, s.nd, s.sp, s.fe, s.fu, s.fs⟩
+
+theorem setRstack (s : ShiftRel k c c') (u : DStack String) :
+    ShiftRel k { c with rstack := u } { c' with rstack := u } :=
+  ⟨s.pos, s.ph, s.fp, s.us, rfl, s.ad, s.tg, s.nd, s.sp, s.fe, s.fu, s.fs⟩
+
+theorem setAdepth (s : ShiftRel k c c') (a : SnapInt) :
+    ShiftRel k { c with adepth := a } { c' with adepth := a } :=
+  ⟨s.pos, s.ph, s.fp, s.us, s.rs, rfl, s.tg, s.nd, s.sp, s.fe, s.fu, s.fs⟩
+
+theorem setTag (s : ShiftRel k c c') (t : List String) :
+    ShiftRel k { c with tagStack := t } { c' with tagStack := t } :=
+  ⟨s.pos, s.ph, s.fp, s.us, s.rs, s.ad, rfl, s.nd, s.sp, s.fe, s.fu, s.fs⟩
+
+theorem setNeg (s : ShiftRel k c c') (n : Nat) :
+    ShiftRel k { c with negDepth := n } { c' with negDepth := n } :=
+  ⟨s.pos, s.ph, s.fp, s.us, s.rs, s.ad, s.tg, rfl, s.sp, s.fe, s.fu, s.fs⟩
+
+theorem setSuppress (s : ShiftRel k c c') (b : Bool) :
+    ShiftRel k { c with suppress := b } { c' with suppress := b } :=
+  ⟨s.pos, s.ph, s.fp, s.us, s.rs, s.ad, s.tg, s.nd, rfl, s.fe, s.fu, s.fs⟩
+
+theorem checkpoint (s : ShiftRel k c c') : ShiftRel k c.checkpoint c'.checkpoint :=
+  ⟨s.pos, by simp [PState.checkpoint, s.pos, s.ph], s.fp, by simp [PState.checkpoint, s.us],
+   by simp [PState.checkpoint, s.rs], by simp [PState.checkpoint, s.ad], s.tg, s.nd, s.sp, s.fe, s.fu, s.fs⟩
+
+theorem ok (s : ShiftRel k c c') : ShiftRel k c.ok c'.ok :=
+  ⟨s.pos, by simp [PState.ok, s.ph], s.fp, by simp [PState.ok, s.us],
+   by simp [PState.ok, s.rs], by simp [PState.ok, s.ad], s.tg, s.nd, s.sp, s.fe, s.fu, s.fs⟩
+
+theorem restore (s : ShiftRel k c c') : ShiftRel k c.restore c'.restore := by
+  refine ⟨?_, by simp [PState.restore, s.ph], s.fp, by simp [PState.restore, s.us],
+   by simp [PState.restore, s.rs], by simp [PState.restore, s.ad], s.tg, s.nd, s.sp, s.fe, s.fu, s.fs⟩
+  simp only [PState.restore, s.ph, s.pos]
+  cases c'.posHist with
+  | nil => rfl
+  | cons x xs => rfl
+
+/-- the relation determines the left state -/
+theorem left_unique {c₁ c₂ c' : PState} (h₁ : ShiftRel k c₁ c') (h₂ : ShiftRel k c₂ c') : c₁ = c₂ := by
+  have hf : c₁.fpos = c₂.fpos := by
+    rcases h₁.fp with ⟨a, b⟩ | ⟨a, b⟩ <;> rcases h₂.fp with ⟨a', b'⟩ | ⟨a', b'⟩ <;> omega
+  have e1 := h₁.pos; have e2 := h₁.ph; have e3 := h₁.us; have e4 := h₁.rs; have e5 := h₁.ad
+  have e6 := h₁.tg; have e7 := h₁.nd; have e8 := h₁.sp; have e9 := h₁.fe; have e10 := h₁.fu
+  have e11 := h₁.fs
+  have d1 := h₂.pos; have d2 := h₂.ph; have d3 := h₂.us; have d4 := h₂.rs; have d5 := h₂.ad
+  have d6 := h₂.tg; have d7 := h₂.nd; have d8 := h₂.sp; have d9 := h₂.fe; have d10 := h₂.fu
+  have d11 := h₂.fs
+  cases c₁; cases c₂
+  simp only at *
+  simp only [PState.mk.injEq]
+  exact ⟨by omega, by rw [e3, d3], by rw [e4, d4], by rw [e5, d5], by rw [e2, d2], by rw [e6, d6],
+    by omega, by rw [e8, d8], hf, by rw [e9, d9], by rw [e10, d10], by rw [e11, d11]⟩
+
+end ShiftRel
+
+theorem shiftRel_init (k j : Nat) : ShiftRel k (PState.init (j + k)) (PState.init j) :=
+  ⟨rfl, rfl, Or.inl ⟨rfl, rfl⟩, rfl, rfl, rfl, rfl, rfl, rfl, rfl, rfl, rfl⟩
+
+/-! ### `fail()` -/
+
+theorem failRecord_shift {k : Nat} {c c' : PState} (s : ShiftRel k c c') (name : String) :
+    ShiftRel k (c.failRecord name c.pos) (c'.failRecord name c'.pos) := by
+  unfold PState.failRecord
+  rw [s.nd, s.rs, s.fe, s.fu]
+  have hp := s.pos
+  rcases s.fp with ⟨a, b⟩ | ⟨a, b⟩
+  · have h1 : ((c.pos : Nat) : Int) > c.fpos := by omega
+    have h2 : ((c'.pos : Nat) : Int) > c'.fpos := by omega
+    simp only [h1, h2, ↓reduceIte]
+    exact ⟨s.pos, s.ph, Or.inr ⟨by simp, by simp [hp]⟩, s.us, rfl, s.ad, s.tg, rfl, s.sp, rfl, rfl, rfl⟩
+  · by_cases h2 : ((c'.pos : Nat) : Int) > c'.fpos
+    · have h1 : ((c.pos : Nat) : Int) > c.fpos := by omega
+      simp only [h1, h2, ↓reduceIte]
+      exact ⟨s.pos, s.ph, Or.inr ⟨by simp, by simp [hp]⟩, s.us, rfl, s.ad, s.tg, rfl, s.sp, rfl, rfl, rfl⟩
+    · have h1 : ¬ ((c.pos : Nat) : Int) > c.fpos := by omega
+      simp only [h1, h2, ↓reduceIte]
+      by_cases h4 : ((c'.pos : Nat) : Int) = c'.fpos
+      · have h3 : ((c.pos : Nat) : Int) = c.fpos := by omega
+        simp only [h3, h4, ↓reduceIte]
+        by_cases hn : (c'.negDepth % 2 == 1) = true
+        · simp only [hn, ↓reduceIte]
+          exact ⟨s.pos, s.ph, s.fp, s.us, rfl, s.ad, s.tg, rfl, s.sp, rfl, rfl, s.fs⟩
+        · simp only [hn, Bool.false_eq_true, ↓reduceIte]
+          exact ⟨s.pos, s.ph, s.fp, s.us, rfl, s.ad, s.tg, rfl, s.sp, rfl, rfl, s.fs⟩
+      · have h3 : ¬ ((c.pos : Nat) : Int) = c.fpos := by omega
+        simp only [h3, h4, ↓reduceIte]
+        exact s
+
+theorem fail_shift {k : Nat} {c c' : PState} (s : ShiftRel k c c') (rn : Option String) (force : Bool) :
+    (c.fail rn force = none ∧ c'.fail rn force = none) ∨
+    ∃ d d', c.fail rn force = some d ∧ c'.fail rn force = some d' ∧ ShiftRel k d d' := by
+  unfold PState.fail
+  rw [s.nd, s.sp]
+  by_cases hs : ((c'.negDepth > 0 && !force) || c'.suppress) = true
+  · simp only [hs, ↓reduceIte]
+    exact Or.inr ⟨c, c', rfl, rfl, s⟩
+  · simp only [hs, Bool.false_eq_true, ↓reduceIte]
+    have hn : c.failName rn = c'.failName rn := by unfold PState.failName; rw [s.rs]
+    rw [hn]
+    cases c'.failName rn with
+    | none => exact Or.inl ⟨rfl, rfl⟩
+    | some nm => exact Or.inr ⟨_, _, rfl, rfl, failRecord_shift s nm⟩
+
+/-! ### L1: the result relation -/
+
+def ResRel (k : Nat) : R1 → R1 → Prop
+  | .oof, r' => r' = .oof
+  | .exc e, r' => r' = .exc e
+  | .done m c ps, r' => ∃ c' ps', r' = .done m c' ps' ∧ ShiftRel k c c' ∧ ps = shiftL k ps'
+
+/-- `r` on the full input and `r'` on the suffix agree up to the shift on SOI-free expressions -/
+def ShiftGood (k : Nat) (r r' : Sem1) : Prop :=
+  ∀ e c c', soiFree e = true → ShiftRel k c c' → ResRel k (r e c) (r' e c')
+
+section l1
+variable {k : Nat} {inp inp' : Input} (g : Grammar)
+
+theorem failT_shift {c c' : PState} (s : ShiftRel k c c') : ResRel k (L1.failT c) (L1.failT c') := by
+  unfold L1.failT
+  rcases fail_shift s none false with ⟨h1, h2⟩ | ⟨d, d', h1, h2, sd⟩
+  · rw [h1, h2]; rfl
+  · rw [h1, h2]; exact ⟨d', [], rfl, sd, rfl⟩
+
+theorem ruleEnter_shift {c c' : PState} (name : String) (mod : Nat) (s : ShiftRel k c c') :
+    ShiftRel k (L1.ruleEnter name mod { c with rstack := c.rstack.push name })
+      (L1.ruleEnter name mod { c' with rstack := c'.rstack.push name }) := by
+  have s1 : ShiftRel k { c with rstack := c.rstack.push name } { c' with rstack := c'.rstack.push name } := by
+    rw [s.rs]; exact s.setRstack _
+  unfold L1.ruleEnter
+  by_cases hA : (hasBit mod ATOMIC || hasBit mod COMPOUND || L1.isTriviaName name) = true
+  · simp only [hA, ↓reduceIte]
+    have := s1.setAdepth ((c'.adepth.snapshot).add 1)
+    simpa [s.ad] using this
+  · by_cases hN : hasBit mod NONATOMIC = true
+    · simp only [hA, hN, Bool.false_eq_true, ↓reduceIte]
+      have := s1.setAdepth ((c'.adepth.snapshot).zero)
+      simpa [s.ad] using this
+    · simp only [hA, hN, Bool.false_eq_true, ↓reduceIte]
+      exact s1
+
+theorem ruleExit_shift {c2 c2' : PState} (name : String) (mod : Nat) {start start' : Nat}
+    (matched : Bool) {children children' : List Pair} (s : ShiftRel k c2 c2')
+    (hst : start = start' + k) (hch : children = shiftL k children') :
+    ResRel k (L1.ruleExit name mod start matched c2 children)
+      (L1.ruleExit name mod start' matched c2' children') := by
+  unfold L1.ruleExit
+  generalize hc3 : (if L1.ruleScoped name mod then ({ c2 with adepth := c2.adepth.restore } : PState) else c2) = c3
+  generalize hc3' : (if L1.ruleScoped name mod then ({ c2' with adepth := c2'.adepth.restore } : PState) else c2') = c3'
+  have s3 : ShiftRel k c3 c3' := by
+    by_cases hsc : L1.ruleScoped name mod = true
+    · simp only [hsc, ↓reduceIte] at hc3 hc3'
+      subst hc3 hc3'
+      rw [s.ad]; exact s.setAdepth _
+    · simp only [hsc, Bool.false_eq_true, ↓reduceIte] at hc3 hc3'
+      subst hc3 hc3'
+      exact s
+  simp only []
+  rw [s3.rs]
+  cases c3'.rstack.pop with
+  | none => rfl
+  | some q =>
+    obtain ⟨x, rs⟩ := q
+    simp only []
+    have s4 : ShiftRel k ({ c3 with rstack := rs } : PState) ({ c3' with rstack := rs } : PState) :=
+      s3.setRstack rs
+    cases matched with
+    | false =>
+      simp only [Bool.not_false, ↓reduceIte]
+      exact ⟨_, [], rfl, s4, rfl⟩
+    | true =>
+      simp only [Bool.not_true, Bool.false_eq_true, ↓reduceIte]
+      by_cases hS : hasBit mod SILENT = true
+      · simp only [hS, ↓reduceIte]
+        exact ⟨_, children', rfl, s4, hch⟩
+      · simp only [hS, Bool.false_eq_true, ↓reduceIte]
+        have htg : c3.tagStack = c3'.tagStack := s3.tg
+        rw [htg]
+        have hvis : (if hasBit mod ATOMIC = true then visibleList children else children)
+            = shiftL k (if hasBit mod ATOMIC = true then visibleList children' else children') := by
+          by_cases hat : hasBit mod ATOMIC = true
+          · simp only [hat, ↓reduceIte, hch, visibleList_shift]
+          · simp only [hat, Bool.false_eq_true, ↓reduceIte, hch]
+        cases c3'.tagStack with
+        | nil =>
+          simp only []
+          refine ⟨_, _, rfl, s4.setTag [], ?_⟩
+          simp only [shiftL, Pair.shift, hvis, hst, s3.pos]
+        | cons t ts =>
+          simp only []
+          refine ⟨_, _, rfl, s4.setTag ts, ?_⟩
+          simp only [shiftL, Pair.shift, hvis, hst, s3.pos]
+
+theorem ruleParse_shift {r r' : Sem1} (h : ShiftGood k r r') (name : String) (mod : Nat)
+    (body : Expr) (hb : soiFree body = true) {c c' : PState} (s : ShiftRel k c c') :
+    ResRel k (L1.ruleParse r name mod body c) (L1.ruleParse r' name mod body c') := by
+  unfold L1.ruleParse
+  have he := h body _ _ hb (ruleEnter_shift name mod s)
+  generalize L1.ruleEnter name mod { c with rstack := c.rstack.push name } = en at he
+  generalize L1.ruleEnter name mod { c' with rstack := c'.rstack.push name } = en' at he
+  revert he
+  cases r body en with
+  | oof => intro he; simp only [ResRel] at he; simp only [he]; rfl
+  | exc e => intro he; simp only [ResRel] at he; simp only [he]; rfl
+  | done m c2 ch =>
+    intro he
+    obtain ⟨c2', ch', e', s2, hch⟩ := he
+    simp only [e']
+    exact ruleExit_shift name mod m s2 s.pos hch
+
+theorem withTag_shift (tag : Option String) {c c' : PState} (s : ShiftRel k c c')
+    (body body' : PState → R1)
+    (hb : ∀ d d', ShiftRel k d d' → ResRel k (body d) (body' d')) :
+    ResRel k (L1.withTag tag c body) (L1.withTag tag c' body') := by
+  unfold L1.withTag
+  cases tag with
+  | none => exact hb c c' s
+  | some t =>
+    simp only []
+    have s' : ShiftRel k { c with tagStack := t :: c.tagStack } { c' with tagStack := t :: c'.tagStack } := by
+      rw [s.tg]; exact s.setTag _
+    have h := hb _ _ s'
+    revert h
+    cases body { c with tagStack := t :: c.tagStack } with
+    | oof => intro h; simp only [ResRel] at h; simp only [h]; rfl
+    | exc e => intro h; simp only [ResRel] at h; simp only [h]; rfl
+    | done m d ps =>
+      intro h
+      obtain ⟨d', ps', e', sd, hps⟩ := h
+      simp only [e']
+      refine ⟨_, ps', rfl, ?_, hps⟩
+      rw [sd.tg]; exact sd.setTag _
+
+theorem callRule_shift {r r' : Sem1} (hg : SOIFree g) (h : ShiftGood k r r') (name : String)
+    {c c' : PState} (s : ShiftRel k c c') :
+    ResRel k (L1.callRule g r name c) (L1.callRule g r' name c') := by
+  unfold L1.callRule
+  cases hl : g.lookup name with
+  | none => rfl
+  | some rl => exact ruleParse_shift h rl.name rl.mod rl.body (hg rl (lookup_mem hl)) s
+
+/-! #### implicit trivia -/
+
+def TryShift (k : Nat) : L1.TryR → L1.TryR → Prop
+  | .matched c ps, t' => ∃ c' ps', t' = .matched c' ps' ∧ ShiftRel k c c' ∧ ps = shiftL k ps'
+  | .no c, t' => ∃ c', t' = .no c' ∧ ShiftRel k c c'
+  | .stop r, t' => ∃ r', t' = .stop r' ∧ ResRel k r r'
+
+theorem tryTrivia_shift {r r' : Sem1} (h : ShiftGood k r r') (rl : Option Rule)
+    (hrl : ∀ x, rl = some x → soiFree x.body = true) {c c' : PState} (s : ShiftRel k c c') :
+    TryShift k (L1.tryTrivia r rl c) (L1.tryTrivia r' rl c') := by
+  unfold L1.tryTrivia
+  cases rl with
+  | none => exact ⟨c', rfl, s⟩
+  | some x =>
+    simp only []
+    have hb := ruleParse_shift h x.name x.mod x.body (hrl x rfl) s.checkpoint
+    revert hb
+    cases L1.ruleParse r x.name x.mod x.body c.checkpoint with
+    | oof => intro hb; simp only [ResRel] at hb; simp only [hb]; exact ⟨_, rfl, rfl⟩
+    | exc e => intro hb; simp only [ResRel] at hb; simp only [hb]; exact ⟨_, rfl, rfl⟩
+    | done m d ps =>
+      intro hb
+      obtain ⟨d', ps', e', sd, hps⟩ := hb
+      simp only [e']
+      cases m with
+      | true => exact ⟨_, ps', rfl, sd.ok, hps⟩
+      | false => exact ⟨_, rfl, sd.restore⟩
+
+theorem triviaLoop_shift {r r' : Sem1} (h : ShiftGood k r r') (ws cm : Option Rule)
+    (hws : ∀ x, ws = some x → soiFree x.body = true) (hcm : ∀ x, cm = some x → soiFree x.body = true) :
+    ∀ (n : Nat) (c c' : PState) (acc' : List Pair), ShiftRel k c c' →
+      ResRel k (L1.triviaLoop r ws cm n c (shiftL k acc')) (L1.triviaLoop r' ws cm n c' acc') := by
+  intro n
+  induction n with
+  | zero => intro c c' acc' _; rfl
+  | succ n ih =>
+    intro c c' acc' s
+    simp only [L1.triviaLoop]
+    have h1 := tryTrivia_shift h ws hws s
+    revert h1
+    cases L1.tryTrivia r ws c with
+    | matched d ps =>
+      intro h1
+      obtain ⟨d', ps', e', sd, hps⟩ := h1
+      simp only [e']
+      have := ih d d' (acc' ++ ps') sd
+      rw [shiftL_append, ← hps] at this
+      exact this
+    | stop x =>
+      intro h1
+      obtain ⟨x', e', hx⟩ := h1
+      simp only [e']
+      exact hx
+    | no c1 =>
+      intro h1
+      obtain ⟨c1', e', s1⟩ := h1
+      simp only [e']
+      have h2 := tryTrivia_shift h cm hcm s1
+      revert h2
+      cases L1.tryTrivia r cm c1 with
+      | matched d ps =>
+        intro h2
+        obtain ⟨d', ps', e2, sd, hps⟩ := h2
+        simp only [e2]
+        have := ih d d' (acc' ++ ps') sd
+        rw [shiftL_append, ← hps] at this
+        exact this
+      | stop x =>
+        intro h2
+        obtain ⟨x', e2, hx⟩ := h2
+        simp only [e2]
+        exact hx
+      | no c2 =>
+        intro h2
+        obtain ⟨c2', e2, s2⟩ := h2
+        simp only [e2]
+        exact ⟨c2', acc', rfl, s2, rfl⟩
+
+theorem parseTrivia_shift {r r' : Sem1} (hg : SOIFree g) (h : ShiftGood k r r') (n : Nat)
+    {c c' : PState} (s : ShiftRel k c c') :
+    ResRel k (L1.parseTrivia g r n c) (L1.parseTrivia g r' n c') := by
+  unfold L1.parseTrivia
+  have hav : c.adepth.val = c'.adepth.val := by rw [s.ad]
+  rw [hav]
+  by_cases ha : c'.adepth.val > 0
+  · simp only [ha, ↓reduceIte]; exact ⟨c', [], rfl, s, rfl⟩
+  · simp only [ha, ↓reduceIte]
+    cases hsk : g.fusedSkip with
+    | some skip =>
+      simp only []
+      exact ruleParse_shift h skip.name skip.mod skip.body (hg skip (fusedSkip_mem hsk)) s
+    | none =>
+      simp only []
+      by_cases hn : ((g.lookup "WHITESPACE").isNone && (g.lookup "COMMENT").isNone) = true
+      · simp only [hn, ↓reduceIte]; exact ⟨c', [], rfl, s, rfl⟩
+      · simp only [hn, Bool.false_eq_true, ↓reduceIte]
+        have hl := triviaLoop_shift h (g.lookup "WHITESPACE") (g.lookup "COMMENT")
+          (fun x hx => hg x (lookup_mem hx)) (fun x hx => hg x (lookup_mem hx)) n
+          { c with suppress := true } { c' with suppress := true } [] (s.setSuppress true)
+        simp only [shiftL] at hl
+        revert hl
+        cases L1.triviaLoop r (g.lookup "WHITESPACE") (g.lookup "COMMENT") n { c with suppress := true } [] with
+        | oof => intro hl; simp only [ResRel] at hl; simp only [hl]; rfl
+        | exc e => intro hl; simp only [ResRel] at hl; simp only [hl]; rfl
+        | done m d ps =>
+          intro hl
+          obtain ⟨d', ps', e', sd, hps⟩ := hl
+          simp only [e']
+          exact ⟨_, ps', rfl, sd.setSuppress false, hps⟩
+
+/-! #### Sequence, Choice, Repeat -/
+
+theorem seqParse_shift {r r' : Sem1} (hg : SOIFree g) (h : ShiftGood k r r') (n : Nat) :
+    ∀ (es : List Expr) (c c' : PState) (acc' : List Pair), (∀ e ∈ es, soiFree e = true) →
+      ShiftRel k c c' →
+      ResRel k (L1.seqParse g r n es c (shiftL k acc')) (L1.seqParse g r' n es c' acc') := by
+  intro es
+  induction es with
+  | nil => intro c c' acc' _ s; exact ⟨c', acc', rfl, s, rfl⟩
+  | cons e rest ih =>
+    intro c c' acc' hes s
+    simp only [L1.seqParse]
+    have he := h e c c' (hes e (by simp)) s
+    revert he
+    cases r e c with
+    | oof => intro he; simp only [ResRel] at he; simp only [he]; rfl
+    | exc x => intro he; simp only [ResRel] at he; simp only [he]; rfl
+    | done m c1 ps =>
+      intro he
+      obtain ⟨c1', ps', e', s1, hps⟩ := he
+      simp only [e']
+      cases m with
+      | false => exact ⟨c1', [], rfl, s1, rfl⟩
+      | true =>
+        simp only []
+        by_cases hr : rest.isEmpty = true
+        · simp only [hr, ↓reduceIte]
+          exact ⟨c1', _, rfl, s1, by rw [shiftL_append, hps]⟩
+        · simp only [hr, Bool.false_eq_true, ↓reduceIte]
+          have ht := parseTrivia_shift g hg h n s1
+          revert ht
+          cases L1.parseTrivia g r n c1 with
+          | oof => intro ht; simp only [ResRel] at ht; simp only [ht]; rfl
+          | exc x => intro ht; simp only [ResRel] at ht; simp only [ht]; rfl
+          | done m2 c2 tps =>
+            intro ht
+            obtain ⟨c2', tps', e2, s2, htps⟩ := ht
+            simp only [e2]
+            have := ih c2 c2' (acc' ++ ps' ++ tps') (fun x hx => hes x (by simp [hx])) s2
+            rw [shiftL_append, shiftL_append, ← hps, ← htps] at this
+            exact this
+
+theorem choiceParse_shift {r r' : Sem1} (h : ShiftGood k r r') :
+    ∀ (es : List Expr) (c c' : PState), (∀ e ∈ es, soiFree e = true) → ShiftRel k c c' →
+      ResRel k (L1.choiceParse r es c) (L1.choiceParse r' es c') := by
+  intro es
+  induction es with
+  | nil => intro c c' _ s; exact ⟨c', [], rfl, s, rfl⟩
+  | cons e rest ih =>
+    intro c c' hes s
+    simp only [L1.choiceParse]
+    have he := h e _ _ (hes e (by simp)) s.checkpoint
+    revert he
+    cases r e c.checkpoint with
+    | oof => intro he; simp only [ResRel] at he; simp only [he]; rfl
+    | exc x => intro he; simp only [ResRel] at he; simp only [he]; rfl
+    | done m c1 ps =>
+      intro he
+      obtain ⟨c1', ps', e', s1, hps⟩ := he
+      simp only [e']
+      cases m with
+      | true => exact ⟨_, ps', rfl, s1.ok, hps⟩
+      | false => exact ih _ _ (fun x hx => hes x (by simp [hx])) s1.restore
+
+theorem repLoop_shift {r r' : Sem1} (hg : SOIFree g) (h : ShiftGood k r r') (e : Expr)
+    (he : soiFree e = true) (kk : Nat) :
+    ∀ (n : Nat) (first : Bool) (c c' : PState) (acc' : List Pair), ShiftRel k c c' →
+      ResRel k (L1.repLoop g r e n kk first c (shiftL k acc')) (L1.repLoop g r' e n kk first c' acc') := by
+  intro n
+  induction n with
+  | zero => intro first c c' acc' _; rfl
+  | succ n ih =>
+    intro first c c' acc' s
+    simp only [L1.repLoop]
+    have hT : ResRel k
+        (if first = true then R1.done true c.checkpoint [] else L1.parseTrivia g r kk c.checkpoint)
+        (if first = true then R1.done true c'.checkpoint [] else L1.parseTrivia g r' kk c'.checkpoint) := by
+      by_cases hf : first = true
+      · simp only [hf, ↓reduceIte]; exact ⟨_, [], rfl, s.checkpoint, rfl⟩
+      · simp only [hf, Bool.false_eq_true, ↓reduceIte]
+        exact parseTrivia_shift g hg h kk s.checkpoint
+    revert hT
+    cases (if first = true then R1.done true c.checkpoint [] else L1.parseTrivia g r kk c.checkpoint) with
+    | oof => intro hT; simp only [ResRel] at hT; simp only [hT]; rfl
+    | exc x => intro hT; simp only [ResRel] at hT; simp only [hT]; rfl
+    | done m c1 tps =>
+      intro hT
+      obtain ⟨c1', tps', e1, s1, htps⟩ := hT
+      simp only [e1]
+      have hb := h e c1 c1' he s1
+      revert hb
+      cases r e c1 with
+      | oof => intro hb; simp only [ResRel] at hb; simp only [hb]; rfl
+      | exc x => intro hb; simp only [ResRel] at hb; simp only [hb]; rfl
+      | done m2 c2 ps =>
+        intro hb
+        obtain ⟨c2', ps', e2, s2, hps⟩ := hb
+        simp only [e2]
+        cases m2 with
+        | true =>
+          have := ih false c2.ok c2'.ok (acc' ++ tps' ++ ps') s2.ok
+          rw [shiftL_append, shiftL_append, ← hps, ← htps] at this
+          exact this
+        | false => exact ⟨_, acc', rfl, s2.restore, rfl⟩
+
+/-! #### POP_ALL -/
+
+theorem popAllLoop_shift (hS : Shifted k inp inp') :
+    ∀ (n : Nat) (c c' : PState) (p' : Nat), ShiftRel k c c' →
+      ResRel k (L1.popAllLoop inp n c (p' + k)) (L1.popAllLoop inp' n c' p') := by
+  intro n
+  induction n with
+  | zero => intro c c' p' _; rfl
+  | succ n ih =>
+    intro c c' p' s
+    simp only [L1.popAllLoop]
+    rw [s.us]
+    cases c'.ustack.pop with
+    | none =>
+      simp only []
+      exact ⟨_, [], rfl, s.ok.setPos rfl, rfl⟩
+    | some q =>
+      obtain ⟨lit, us⟩ := q
+      simp only [startsWithAt_shift hS]
+      by_cases hm : startsWithAt inp' lit p' = true
+      · simp only [hm, ↓reduceIte]
+        rw [show p' + k + lit.length = (p' + lit.length) + k by omega]
+        exact ih _ _ _ (s.setUstack us)
+      · simp only [hm, Bool.false_eq_true, ↓reduceIte]
+        exact failT_shift (s.setUstack us).restore
+
+/-! #### one node -/
+
+theorem step_shift {r r' : Sem1} (hS : Shifted k inp inp') (hg : SOIFree g) (n : Nat)
+    (h : ShiftGood k r r') : ShiftGood k (L1.step g inp n r) (L1.step g inp' n r') := by
+  intro e c c' hf s
+  have hpos := s.pos
+  have eSW : ∀ x, startsWithAt inp x c.pos = startsWithAt inp' x c'.pos := fun x => by
+    rw [hpos, startsWithAt_shift hS]
+  have eCI : ∀ x, startsWithAtCI inp x c.pos = startsWithAtCI inp' x c'.pos := fun x => by
+    rw [hpos, startsWithAtCI_shift hS]
+  have eGet : inp[c.pos]? = inp'[c'.pos]? := by rw [hpos, hS.get]
+  have eMA : ∀ ls, L1.matchAll inp ls c.pos = (L1.matchAll inp' ls c'.pos).map (· + k) := fun ls => by
+    rw [hpos, matchAll_shift hS]
+  have eItems : c.ustack.items = c'.ustack.items := by rw [s.us]
+  have ePeek : c.ustack.peek = c'.ustack.peek := by rw [s.us]
+  have ePop : c.ustack.pop = c'.ustack.pop := by rw [s.us]
+  cases e with
+  | str x =>
+    simp only [L1.step]
+    rw [eSW]
+    by_cases hm : startsWithAt inp' x c'.pos = true
+    · simp only [hm, ↓reduceIte]
+      exact ⟨_, [], rfl, s.setPos (by omega), rfl⟩
+    · simp only [hm, Bool.false_eq_true, ↓reduceIte]; exact failT_shift s
+  | ci x =>
+    simp only [L1.step]
+    rw [eCI]
+    by_cases hm : startsWithAtCI inp' x c'.pos = true
+    · simp only [hm, ↓reduceIte]
+      exact ⟨_, [], rfl, s.setPos (by omega), rfl⟩
+    · simp only [hm, Bool.false_eq_true, ↓reduceIte]; exact failT_shift s
+  | range a b =>
+    simp only [L1.step]
+    rw [eGet]
+    cases inp'[c'.pos]? with
+    | none => exact failT_shift s
+    | some x =>
+      simp only []
+      by_cases hm : L1.inRange a b x = true
+      · simp only [hm, ↓reduceIte]
+        exact ⟨_, [], rfl, s.setPos (by omega), rfl⟩
+      · simp only [hm, Bool.false_eq_true, ↓reduceIte]; exact failT_shift s
+  | ident name tag =>
+    simp only [L1.step]
+    exact withTag_shift tag s _ _ (fun d d' sd => callRule_shift g hg h name sd)
+  | rule name mod sm body =>
+    simp only [L1.step]
+    simp only [soiFree] at hf
+    exact ruleParse_shift h name mod body hf s
+  | seq es =>
+    simp only [soiFree] at hf
+    exact seqParse_shift g hg h n es c c' [] ((soiFreeL_iff es).1 hf) s
+  | choice es =>
+    simp only [soiFree] at hf
+    exact choiceParse_shift h es c c' ((soiFreeL_iff es).1 hf) s
+  | opt e =>
+    simp only [L1.step]
+    simp only [soiFree] at hf
+    have he := h e _ _ hf s.checkpoint
+    revert he
+    cases r e c.checkpoint with
+    | oof => intro he; simp only [ResRel] at he; simp only [he]; rfl
+    | exc x => intro he; simp only [ResRel] at he; simp only [he]; rfl
+    | done m c1 ps =>
+      intro he
+      obtain ⟨c1', ps', e', s1, hps⟩ := he
+      simp only [e']
+      cases m with
+      | true => exact ⟨_, ps', rfl, s1.ok, hps⟩
+      | false => exact ⟨_, [], rfl, s1.restore, rfl⟩
+  | rep e =>
+    simp only [soiFree] at hf
+    exact repLoop_shift g hg h e hf n n true c c' [] s
+  | rep1 e =>
+    simp only [soiFree] at hf
+    exact seqParse_shift g hg h n [e, .rep e] c c' [] (by simp [soiFree, hf]) s
+  | repExact e m =>
+    simp only [soiFree] at hf
+    exact seqParse_shift g hg h n (List.replicate m e) c c' []
+      (by intro x hx; rw [(List.mem_replicate.1 hx).2]; exact hf) s
+  | repMin e m =>
+    simp only [soiFree] at hf
+    refine seqParse_shift g hg h n (List.replicate m e ++ [.rep e]) c c' [] ?_ s
+    intro x hx
+    rcases List.mem_append.1 hx with hx | hx
+    · rw [(List.mem_replicate.1 hx).2]; exact hf
+    · simp only [List.mem_singleton] at hx; rw [hx]; simpa [soiFree] using hf
+  | repMax e m =>
+    simp only [soiFree] at hf
+    refine seqParse_shift g hg h n (List.replicate m (.opt e)) c c' [] ?_ s
+    intro x hx; rw [(List.mem_replicate.1 hx).2]; simpa [soiFree] using hf
+  | repMinMax e m m2 =>
+    simp only [soiFree] at hf
+    refine seqParse_shift g hg h n (List.replicate m e ++ List.replicate (m2 - m) (.opt e)) c c' [] ?_ s
+    intro x hx
+    rcases List.mem_append.1 hx with hx | hx
+    · rw [(List.mem_replicate.1 hx).2]; exact hf
+    · rw [(List.mem_replicate.1 hx).2]; simpa [soiFree] using hf
+  | andP e =>
+    simp only [L1.step]
+    simp only [soiFree] at hf
+    have he := h e _ _ hf s.checkpoint
+    revert he
+    cases r e c.checkpoint with
+    | oof => intro he; simp only [ResRel] at he; simp only [he]; rfl
+    | exc x => intro he; simp only [ResRel] at he; simp only [he]; rfl
+    | done m c1 ps =>
+      intro he
+      obtain ⟨c1', ps', e', s1, hps⟩ := he
+      simp only [e']
+      exact ⟨_, [], rfl, s1.restore, rfl⟩
+  | notP e =>
+    simp only [L1.step]
+    simp only [soiFree] at hf
+    have sc : ShiftRel k { c.checkpoint with negDepth := c.checkpoint.negDepth + 1 }
+        { c'.checkpoint with negDepth := c'.checkpoint.negDepth + 1 } := by
+      have hn : c.checkpoint.negDepth = c'.checkpoint.negDepth := s.checkpoint.nd
+      rw [hn]; exact s.checkpoint.setNeg _
+    have he := h e _ _ hf sc
+    revert he
+    cases r e { c.checkpoint with negDepth := c.checkpoint.negDepth + 1 } with
+    | oof => intro he; simp only [ResRel] at he; simp only [he]; rfl
+    | exc x => intro he; simp only [ResRel] at he; simp only [he]; rfl
+    | done m c1 ps =>
+      intro he
+      obtain ⟨c1', ps', e', s1, hps⟩ := he
+      simp only [e']
+      have sr := s1.restore
+      cases m with
+      | false =>
+        simp only [Bool.false_eq_true, ↓reduceIte]
+        refine ⟨_, [], rfl, ?_, rfl⟩
+        have hn : c1.restore.negDepth = c1'.restore.negDepth := sr.nd
+        rw [hn]; exact sr.setNeg _
+      | true =>
+        simp only [↓reduceIte]
+        rcases fail_shift sr (L1.failedName e) true with ⟨h1, h2⟩ | ⟨d, d', h1, h2, sd⟩
+        · simp only [h1, h2]; rfl
+        · simp only [h1, h2]
+          refine ⟨_, [], rfl, ?_, rfl⟩
+          rw [sd.nd]; exact sd.setNeg _
+  | group e tag =>
+    simp only [L1.step]
+    simp only [soiFree] at hf
+    exact withTag_shift tag s _ _ (fun d d' sd => h e d d' hf sd)
+  | push e =>
+    simp only [L1.step]
+    simp only [soiFree] at hf
+    have he := h e c c' hf s
+    revert he
+    cases r e c with
+    | oof => intro he; simp only [ResRel] at he; simp only [he]; rfl
+    | exc x => intro he; simp only [ResRel] at he; simp only [he]; rfl
+    | done m c1 ps =>
+      intro he
+      obtain ⟨c1', ps', e', s1, hps⟩ := he
+      simp only [e']
+      cases m with
+      | false => exact ⟨_, [], rfl, s1, rfl⟩
+      | true =>
+        simp only []
+        refine ⟨_, ps', rfl, ?_, hps⟩
+        have e1 : slice inp c.pos c1.pos = slice inp' c'.pos c1'.pos := by
+          rw [hpos, s1.pos, slice_shift hS]
+        rw [e1, s1.us]
+        exact s1.setUstack _
+  | pushLit x =>
+    simp only [L1.step]
+    refine ⟨_, [], rfl, ?_, rfl⟩
+    rw [s.us]; exact s.setUstack _
+  | peekSlice a b =>
+    simp only [L1.step]
+    rw [eMA, eItems]
+    cases L1.matchAll inp' (pySlice c'.ustack.items.reverse a b) c'.pos with
+    | none => exact failT_shift s
+    | some q => exact ⟨_, [], rfl, s.setPos rfl, rfl⟩
+  | peek =>
+    simp only [L1.step]
+    rw [ePeek]
+    cases c'.ustack.peek with
+    | none => exact ⟨c', [], rfl, s, rfl⟩
+    | some v =>
+      simp only []
+      rw [eSW]
+      by_cases hm : startsWithAt inp' v c'.pos = true
+      · simp only [hm, ↓reduceIte]
+        exact ⟨_, [], rfl, s.setPos (by omega), rfl⟩
+      · simp only [hm, Bool.false_eq_true, ↓reduceIte]; exact failT_shift s
+  | peekAll =>
+    simp only [L1.step]
+    rw [eMA, eItems]
+    cases L1.matchAll inp' c'.ustack.items c'.pos with
+    | none => exact failT_shift s
+    | some q => exact ⟨_, [], rfl, s.setPos rfl, rfl⟩
+  | pop =>
+    simp only [L1.step]
+    rw [ePeek]
+    cases c'.ustack.peek with
+    | none => exact ⟨c', [], rfl, s, rfl⟩
+    | some v =>
+      simp only []
+      rw [eSW]
+      by_cases hm : startsWithAt inp' v c'.pos = true
+      · simp only [hm, ↓reduceIte]
+        rw [ePop]
+        cases c'.ustack.pop with
+        | none => rfl
+        | some q =>
+          obtain ⟨x, us⟩ := q
+          exact ⟨_, [], rfl, (s.setUstack us).setPos (by omega), rfl⟩
+      · simp only [hm, Bool.false_eq_true, ↓reduceIte]; exact failT_shift s
+  | popAll =>
+    simp only [L1.step]
+    have := popAllLoop_shift hS (c'.ustack.items.length + 1) _ _ c'.pos s.checkpoint
+    rw [← hpos] at this
+    rw [eItems]
+    exact this
+  | drop =>
+    simp only [L1.step]
+    rw [ePop]
+    cases c'.ustack.pop with
+    | none => exact failT_shift s
+    | some q =>
+      obtain ⟨x, us⟩ := q
+      exact ⟨_, [], rfl, s.setUstack us, rfl⟩
+  | anyB =>
+    simp only [L1.step]
+    have hsz := hS.size
+    by_cases hm : c'.pos < inp'.size
+    · have hm' : c.pos < inp.size := by omega
+      simp only [hm, hm', ↓reduceIte]
+      exact ⟨_, [], rfl, s.setPos (by omega), rfl⟩
+    · have hm' : ¬ c.pos < inp.size := by omega
+      simp only [hm, hm', ↓reduceIte]
+      exact ⟨c', [], rfl, s, rfl⟩
+  | soiB => simp [soiFree] at hf
+  | eoiB =>
+    simp only [L1.step]
+    have hsz := hS.size
+    have : (c.pos == inp.size) = (c'.pos == inp'.size) := by
+      rw [Bool.eq_iff_iff]; simp only [beq_iff_eq]; omega
+    rw [this]
+    exact ⟨c', [], rfl, s, rfl⟩
+  | uprop nm =>
+    simp only [L1.step]
+    rw [eGet]
+    cases inp'[c'.pos]? with
+    | none => exact ⟨c', [], rfl, s, rfl⟩
+    | some x =>
+      simp only []
+      by_cases hm : g.uprop nm x = true
+      · simp only [hm, ↓reduceIte]
+        exact ⟨_, [], rfl, s.setPos (by omega), rfl⟩
+      · simp only [hm, Bool.false_eq_true, ↓reduceIte]; exact ⟨c', [], rfl, s, rfl⟩
+  | skipUntil subs =>
+    simp only [L1.step]
+    have e1 : L1.skipUntilPos inp subs c.pos = L1.skipUntilPos inp' subs c'.pos + k := by
+      rw [hpos, skipUntilPos_shift hS]
+    rw [e1]
+    exact ⟨_, [], rfl, s.setPos rfl, rfl⟩
+  | optChoice alts star =>
+    simp only [L1.step]
+    have e1 : L1.optMatch g inp alts star c.pos = (L1.optMatch g inp' alts star c'.pos).map (· + k) := by
+      rw [hpos, optMatch_shift hS]
+    rw [e1]
+    cases L1.optMatch g inp' alts star c'.pos with
+    | none => exact ⟨c', [], rfl, s, rfl⟩
+    | some q => exact ⟨_, [], rfl, s.setPos rfl, rfl⟩
+
+/-- **shift invariance of the interpreter model**, every expression, every fuel -/
+theorem run_shift (hS : Shifted k inp inp') (hg : SOIFree g) :
+    ∀ n, ShiftGood k (L1.run g inp n) (L1.run g inp' n) := by
+  intro n
+  induction n with
+  | zero => intro e c c' _ _; rfl
+  | succ n ih => exact step_shift g hS hg n ih
+
+end l1
+
+/-! ### LG: the same for the generated-code model (the caller's list is threaded) -/
+
+def ResRelG (k : Nat) : RG → RG → Prop
+  | .oof, r' => r' = .oof
+  | .exc e, r' => r' = .exc e
+  | .done m c ps, r' => ∃ c' ps', r' = .done m c' ps' ∧ ShiftRel k c c' ∧ ps = shiftL k ps'
+
+def ShiftGoodG (k : Nat) (r r' : SemG) : Prop :=
+  ∀ e c c' ps', soiFree e = true → ShiftRel k c c' → ResRelG k (r e c (shiftL k ps')) (r' e c' ps')
+
+section lg
+variable {k : Nat} {inp inp' : Input} (g : Grammar)
+
+theorem failTG_shift {c c' : PState} (ps' : List Pair) (s : ShiftRel k c c') :
+    ResRelG k (LG.failT c (shiftL k ps')) (LG.failT c' ps') := by
+  unfold LG.failT
+  rcases fail_shift s none false with ⟨h1, h2⟩ | ⟨d, d', h1, h2, sd⟩
+  · rw [h1, h2]; rfl
+  · rw [h1, h2]; exact ⟨d', ps', rfl, sd, rfl⟩
+
+theorem ruleExitG_shift {c2 c2' : PState} (name : String) (mod : Nat) {start start' : Nat}
+    (matched : Bool) {children children' : List Pair} (ps' : List Pair) (s : ShiftRel k c2 c2')
+    (hst : start = start' + k) (hch : children = shiftL k children') :
+    ResRelG k (LG.ruleExitG name mod start matched c2 children (shiftL k ps'))
+      (LG.ruleExitG name mod start' matched c2' children' ps') := by
+  unfold LG.ruleExitG
+  generalize hc3 : (if L1.ruleScoped name mod then ({ c2 with adepth := c2.adepth.restore } : PState) else c2) = c3
+  generalize hc3' : (if L1.ruleScoped name mod then ({ c2' with adepth := c2'.adepth.restore } : PState) else c2') = c3'
+  have s3 : ShiftRel k c3 c3' := by
+    by_cases hsc : L1.ruleScoped name mod = true
+    · simp only [hsc, ↓reduceIte] at hc3 hc3'
+      subst hc3 hc3'
+      rw [s.ad]; exact s.setAdepth _
+    · simp only [hsc, Bool.false_eq_true, ↓reduceIte] at hc3 hc3'
+      subst hc3 hc3'
+      exact s
+  simp only []
+  rw [s3.rs]
+  cases c3'.rstack.pop with
+  | none => rfl
+  | some q =>
+    obtain ⟨x, rs⟩ := q
+    simp only []
+    have s4 : ShiftRel k ({ c3 with rstack := rs } : PState) ({ c3' with rstack := rs } : PState) :=
+      s3.setRstack rs
+    cases matched with
+    | false =>
+      simp only [Bool.not_false, ↓reduceIte]
+      exact ⟨_, ps', rfl, s4, rfl⟩
+    | true =>
+      simp only [Bool.not_true, Bool.false_eq_true, ↓reduceIte]
+      by_cases hS : hasBit mod SILENT = true
+      · simp only [hS, ↓reduceIte]
+        exact ⟨_, _, rfl, s4, by rw [shiftL_append, hch]⟩
+      · simp only [hS, Bool.false_eq_true, ↓reduceIte]
+        have htg : c3.tagStack = c3'.tagStack := s3.tg
+        rw [htg]
+        have hvis : (if hasBit mod ATOMIC = true then visibleList children else children)
+            = shiftL k (if hasBit mod ATOMIC = true then visibleList children' else children') := by
+          by_cases hat : hasBit mod ATOMIC = true
+          · simp only [hat, ↓reduceIte, hch, visibleList_shift]
+          · simp only [hat, Bool.false_eq_true, ↓reduceIte, hch]
+        cases c3'.tagStack with
+        | nil =>
+          simp only []
+          refine ⟨_, _, rfl, s4.setTag [], ?_⟩
+          simp only [shiftL_append, shiftL, Pair.shift, hvis, hst, s3.pos]
+        | cons t ts =>
+          simp only []
+          refine ⟨_, _, rfl, s4.setTag ts, ?_⟩
+          simp only [shiftL_append, shiftL, Pair.shift, hvis, hst, s3.pos]
+
+theorem ruleG_shift {r r' : SemG} (h : ShiftGoodG k r r') (name : String) (mod : Nat)
+    (body : Expr) (hb : soiFree body = true) {c c' : PState} (ps' : List Pair) (s : ShiftRel k c c') :
+    ResRelG k (LG.ruleG r name mod body c (shiftL k ps')) (LG.ruleG r' name mod body c' ps') := by
+  unfold LG.ruleG
+  have he := h body _ _ [] hb (ruleEnter_shift name mod s)
+  simp only [shiftL] at he
+  generalize L1.ruleEnter name mod { c with rstack := c.rstack.push name } = en at he
+  generalize L1.ruleEnter name mod { c' with rstack := c'.rstack.push name } = en' at he
+  revert he
+  cases r body en [] with
+  | oof => intro he; simp only [ResRelG] at he; simp only [he]; rfl
+  | exc e => intro he; simp only [ResRelG] at he; simp only [he]; rfl
+  | done m c2 ch =>
+    intro he
+    obtain ⟨c2', ch', e', s2, hch⟩ := he
+    simp only [e']
+    exact ruleExitG_shift name mod m ps' s2 s.pos hch
+
+theorem callRuleG_shift {r r' : SemG} (hg : SOIFree g) (h : ShiftGoodG k r r') (name : String)
+    {c c' : PState} (ps' : List Pair) (s : ShiftRel k c c') :
+    ResRelG k (LG.callRuleG g r name c (shiftL k ps')) (LG.callRuleG g r' name c' ps') := by
+  unfold LG.callRuleG
+  cases hl : g.lookup name with
+  | none => rfl
+  | some rl =>
+    simp only []
+    by_cases hb : (rl.kind == RuleKind.builtin && rl.name != "EOI") = true
+    · simp only [hb, ↓reduceIte]; rfl
+    · simp only [hb, Bool.false_eq_true, ↓reduceIte]
+      exact ruleG_shift h rl.name rl.mod rl.body (hg rl (lookup_mem hl)) ps' s
+
+theorem withTagG_shift (tag : Option String) {c c' : PState} (s : ShiftRel k c c')
+    (body body' : PState → RG)
+    (hb : ∀ d d', ShiftRel k d d' → ResRelG k (body d) (body' d')) :
+    ResRelG k (LG.withTagG tag c body) (LG.withTagG tag c' body') := by
+  unfold LG.withTagG
+  cases tag with
+  | none => exact hb c c' s
+  | some t =>
+    simp only []
+    have s' : ShiftRel k { c with tagStack := t :: c.tagStack } { c' with tagStack := t :: c'.tagStack } := by
+      rw [s.tg]; exact s.setTag _
+    have h := hb _ _ s'
+    revert h
+    cases body { c with tagStack := t :: c.tagStack } with
+    | oof => intro h; simp only [ResRelG] at h; simp only [h]; rfl
+    | exc e => intro h; simp only [ResRelG] at h; simp only [h]; rfl
+    | done m d ps =>
+      intro h
+      obtain ⟨d', ps', e', sd, hps⟩ := h
+      simp only [e']
+      refine ⟨_, ps', rfl, ?_, hps⟩
+      rw [sd.tg]; exact sd.setTag _
+
+def TryShiftG (k : Nat) : LG.TryG → LG.TryG → Prop
+  | .matched c ps, t' => ∃ c' ps', t' = .matched c' ps' ∧ ShiftRel k c c' ∧ ps = shiftL k ps'
+  | .no c ps, t' => ∃ c' ps', t' = .no c' ps' ∧ ShiftRel k c c' ∧ ps = shiftL k ps'
+  | .stop r, t' => ∃ r', t' = .stop r' ∧ ResRelG k r r'
+
+theorem tryTriviaG_shift {r r' : SemG} (hg : SOIFree g) (h : ShiftGoodG k r r') (on : Bool)
+    (name : String) {c c' : PState} (ps' : List Pair) (s : ShiftRel k c c') :
+    TryShiftG k (LG.tryTriviaG g r on name c (shiftL k ps')) (LG.tryTriviaG g r' on name c' ps') := by
+  unfold LG.tryTriviaG
+  by_cases ho : on = true
+  · simp only [ho, Bool.not_true, Bool.false_eq_true, ↓reduceIte]
+    have hb := callRuleG_shift g hg h name ps' s.checkpoint
+    revert hb
+    cases LG.callRuleG g r name c.checkpoint (shiftL k ps') with
+    | oof => intro hb; simp only [ResRelG] at hb; simp only [hb]; exact ⟨_, rfl, rfl⟩
+    | exc e => intro hb; simp only [ResRelG] at hb; simp only [hb]; exact ⟨_, rfl, rfl⟩
+    | done m d ps =>
+      intro hb
+      obtain ⟨d', ps2', e', sd, hps⟩ := hb
+      simp only [e']
+      cases m with
+      | true => exact ⟨_, ps2', rfl, sd.ok, hps⟩
+      | false => exact ⟨_, ps2', rfl, sd.restore, hps⟩
+  · simp only [ho, Bool.not_false, ↓reduceIte]
+    exact ⟨c', ps', rfl, s, rfl⟩
+
+theorem triviaLoopG_shift {r r' : SemG} (hg : SOIFree g) (h : ShiftGoodG k r r') (hasWs hasCm : Bool) :
+    ∀ (n : Nat) (c c' : PState) (ps' : List Pair), ShiftRel k c c' →
+      ResRelG k (LG.triviaLoopG g r hasWs hasCm n c (shiftL k ps')) (LG.triviaLoopG g r' hasWs hasCm n c' ps') := by
+  intro n
+  induction n with
+  | zero => intro c c' ps' _; rfl
+  | succ n ih =>
+    intro c c' ps' s
+    simp only [LG.triviaLoopG]
+    have h1 := tryTriviaG_shift g hg h hasWs "WHITESPACE" ps' s
+    revert h1
+    cases LG.tryTriviaG g r hasWs "WHITESPACE" c (shiftL k ps') with
+    | matched d ps =>
+      intro h1
+      obtain ⟨d', ps2', e', sd, hps⟩ := h1
+      simp only [e']
+      rw [hps]
+      exact ih d d' ps2' sd
+    | stop x =>
+      intro h1
+      obtain ⟨x', e', hx⟩ := h1
+      simp only [e']
+      exact hx
+    | no c1 ps1 =>
+      intro h1
+      obtain ⟨c1', ps1', e', s1, hps1⟩ := h1
+      simp only [e']
+      rw [hps1]
+      have h2 := tryTriviaG_shift g hg h hasCm "COMMENT" ps1' s1
+      revert h2
+      cases LG.tryTriviaG g r hasCm "COMMENT" c1 (shiftL k ps1') with
+      | matched d ps =>
+        intro h2
+        obtain ⟨d', ps2', e2, sd, hps⟩ := h2
+        simp only [e2]
+        rw [hps]
+        exact ih d d' ps2' sd
+      | stop x =>
+        intro h2
+        obtain ⟨x', e2, hx⟩ := h2
+        simp only [e2]
+        exact hx
+      | no c2 ps2 =>
+        intro h2
+        obtain ⟨c2', ps2', e2, s2, hps2⟩ := h2
+        simp only [e2]
+        exact ⟨c2', ps2', rfl, s2, hps2⟩
+
+theorem parseTriviaG_shift {r r' : SemG} (hg : SOIFree g) (h : ShiftGoodG k r r') (n : Nat)
+    {c c' : PState} (ps' : List Pair) (s : ShiftRel k c c') :
+    ResRelG k (LG.parseTriviaG g r n c (shiftL k ps')) (LG.parseTriviaG g r' n c' ps') := by
+  unfold LG.parseTriviaG
+  have hav : c.adepth.val = c'.adepth.val := by rw [s.ad]
+  simp only [hav]
+  by_cases hn : (!(g.fusedSkip.isSome || g.defines "WHITESPACE" || g.defines "COMMENT")) = true
+  · simp only [hn, ↓reduceIte]; exact ⟨c', ps', rfl, s, rfl⟩
+  · simp only [hn, Bool.false_eq_true, ↓reduceIte]
+    by_cases ha : c'.adepth.val > 0
+    · simp only [ha, ↓reduceIte]; exact ⟨c', ps', rfl, s, rfl⟩
+    · simp only [ha, ↓reduceIte]
+      by_cases hsk : g.fusedSkip.isSome = true
+      · simp only [hsk, ↓reduceIte]
+        exact callRuleG_shift g hg h "SKIP" ps' s
+      · simp only [hsk, Bool.false_eq_true, ↓reduceIte]
+        have hl := triviaLoopG_shift g hg h (g.defines "WHITESPACE") (g.defines "COMMENT") n
+          { c with suppress := true } { c' with suppress := true } ps' (s.setSuppress true)
+        revert hl
+        cases LG.triviaLoopG g r (g.defines "WHITESPACE") (g.defines "COMMENT") n
+            { c with suppress := true } (shiftL k ps') with
+        | oof => intro hl; simp only [ResRelG] at hl; simp only [hl]; rfl
+        | exc e => intro hl; simp only [ResRelG] at hl; simp only [hl]; rfl
+        | done m d ps =>
+          intro hl
+          obtain ⟨d', ps2', e', sd, hps⟩ := hl
+          simp only [e']
+          exact ⟨_, ps2', rfl, sd.setSuppress false, hps⟩
+
+theorem seqG_shift {r r' : SemG} (hg : SOIFree g) (h : ShiftGoodG k r r') (n : Nat) :
+    ∀ (es : List Expr) (c c' : PState) (ps' : List Pair), (∀ e ∈ es, soiFree e = true) →
+      ShiftRel k c c' →
+      ResRelG k (LG.seqG g r n es c (shiftL k ps')) (LG.seqG g r' n es c' ps') := by
+  intro es
+  induction es with
+  | nil => intro c c' ps' _ s; exact ⟨c', ps', rfl, s, rfl⟩
+  | cons e rest ih =>
+    intro c c' ps' hes s
+    simp only [LG.seqG]
+    have he := h e c c' ps' (hes e (by simp)) s
+    revert he
+    cases r e c (shiftL k ps') with
+    | oof => intro he; simp only [ResRelG] at he; simp only [he]; rfl
+    | exc x => intro he; simp only [ResRelG] at he; simp only [he]; rfl
+    | done m c1 ps1 =>
+      intro he
+      obtain ⟨c1', ps1', e', s1, hps⟩ := he
+      simp only [e']
+      cases m with
+      | false => exact ⟨c1', ps1', rfl, s1, hps⟩
+      | true =>
+        simp only []
+        by_cases hr : rest.isEmpty = true
+        · simp only [hr, ↓reduceIte]
+          exact ⟨c1', ps1', rfl, s1, hps⟩
+        · simp only [hr, Bool.false_eq_true, ↓reduceIte]
+          rw [hps]
+          have ht := parseTriviaG_shift g hg h n ps1' s1
+          revert ht
+          cases LG.parseTriviaG g r n c1 (shiftL k ps1') with
+          | oof => intro ht; simp only [ResRelG] at ht; simp only [ht]; rfl
+          | exc x => intro ht; simp only [ResRelG] at ht; simp only [ht]; rfl
+          | done m2 c2 ps2 =>
+            intro ht
+            obtain ⟨c2', ps2', e2, s2, hps2⟩ := ht
+            simp only [e2]
+            rw [hps2]
+            exact ih c2 c2' ps2' (fun x hx => hes x (by simp [hx])) s2
+
+theorem choiceG_shift {r r' : SemG} (h : ShiftGoodG k r r') :
+    ∀ (es : List Expr) (c c' : PState) (ps' : List Pair), (∀ e ∈ es, soiFree e = true) →
+      ShiftRel k c c' →
+      ResRelG k (LG.choiceG r es c (shiftL k ps')) (LG.choiceG r' es c' ps') := by
+  intro es
+  induction es with
+  | nil => intro c c' ps' _ s; exact ⟨c', ps', rfl, s, rfl⟩
+  | cons e rest ih =>
+    intro c c' ps' hes s
+    simp only [LG.choiceG]
+    have he := h e _ _ [] (hes e (by simp)) s.checkpoint
+    simp only [shiftL] at he
+    revert he
+    cases r e c.checkpoint [] with
+    | oof => intro he; simp only [ResRelG] at he; simp only [he]; rfl
+    | exc x => intro he; simp only [ResRelG] at he; simp only [he]; rfl
+    | done m c1 tmp =>
+      intro he
+      obtain ⟨c1', tmp', e', s1, htmp⟩ := he
+      simp only [e']
+      cases m with
+      | true => exact ⟨_, _, rfl, s1.ok, by rw [shiftL_append, htmp]⟩
+      | false => exact ih _ _ ps' (fun x hx => hes x (by simp [hx])) s1.restore
+
+theorem repLoopG_shift {r r' : SemG} (hg : SOIFree g) (h : ShiftGoodG k r r') (e : Expr)
+    (he : soiFree e = true) (kk : Nat) :
+    ∀ (n : Nat) (first : Bool) (c c' : PState) (ps' : List Pair), ShiftRel k c c' →
+      ResRelG k (LG.repLoopG g r e n kk first c (shiftL k ps')) (LG.repLoopG g r' e n kk first c' ps') := by
+  intro n
+  induction n with
+  | zero => intro first c c' ps' _; rfl
+  | succ n ih =>
+    intro first c c' ps' s
+    simp only [LG.repLoopG]
+    have hT : ResRelG k
+        (if first = true then RG.done true c.checkpoint [] else LG.parseTriviaG g r kk c.checkpoint [])
+        (if first = true then RG.done true c'.checkpoint [] else LG.parseTriviaG g r' kk c'.checkpoint []) := by
+      by_cases hf : first = true
+      · simp only [hf, ↓reduceIte]; exact ⟨_, [], rfl, s.checkpoint, rfl⟩
+      · simp only [hf, Bool.false_eq_true, ↓reduceIte]
+        have := parseTriviaG_shift g hg h kk [] s.checkpoint
+        simpa only [shiftL] using this
+    revert hT
+    cases (if first = true then RG.done true c.checkpoint [] else LG.parseTriviaG g r kk c.checkpoint []) with
+    | oof => intro hT; simp only [ResRelG] at hT; simp only [hT]; rfl
+    | exc x => intro hT; simp only [ResRelG] at hT; simp only [hT]; rfl
+    | done m c1 tmp =>
+      intro hT
+      obtain ⟨c1', tmp', e1, s1, htmp⟩ := hT
+      simp only [e1]
+      rw [htmp]
+      have hb := h e c1 c1' tmp' he s1
+      revert hb
+      cases r e c1 (shiftL k tmp') with
+      | oof => intro hb; simp only [ResRelG] at hb; simp only [hb]; rfl
+      | exc x => intro hb; simp only [ResRelG] at hb; simp only [hb]; rfl
+      | done m2 c2 tmp2 =>
+        intro hb
+        obtain ⟨c2', tmp2', e2, s2, htmp2⟩ := hb
+        simp only [e2]
+        cases m2 with
+        | true =>
+          have := ih false c2.ok c2'.ok (ps' ++ tmp2') s2.ok
+          rw [shiftL_append, ← htmp2] at this
+          exact this
+        | false => exact ⟨_, ps', rfl, s2.restore, rfl⟩
+
+theorem stepG_shift {r r' : SemG} (hS : Shifted k inp inp') (hg : SOIFree g) (n : Nat)
+    (h : ShiftGoodG k r r') : ShiftGoodG k (LG.step g inp n r) (LG.step g inp' n r') := by
+  intro e c c' ps' hf s
+  have hpos := s.pos
+  have eSW : ∀ x, startsWithAt inp x c.pos = startsWithAt inp' x c'.pos := fun x => by
+    rw [hpos, startsWithAt_shift hS]
+  have eCI : ∀ x, startsWithAtCI inp x c.pos = startsWithAtCI inp' x c'.pos := fun x => by
+    rw [hpos, startsWithAtCI_shift hS]
+  have eGet : inp[c.pos]? = inp'[c'.pos]? := by rw [hpos, hS.get]
+  have eMA : ∀ ls, L1.matchAll inp ls c.pos = (L1.matchAll inp' ls c'.pos).map (· + k) := fun ls => by
+    rw [hpos, matchAll_shift hS]
+  have eItems : c.ustack.items = c'.ustack.items := by rw [s.us]
+  have ePeek : c.ustack.peek = c'.ustack.peek := by rw [s.us]
+  have ePop : c.ustack.pop = c'.ustack.pop := by rw [s.us]
+  cases e with
+  | str x =>
+    simp only [LG.step]
+    rw [eSW]
+    by_cases hm : startsWithAt inp' x c'.pos = true
+    · simp only [hm, ↓reduceIte]
+      exact ⟨_, ps', rfl, s.setPos (by omega), rfl⟩
+    · simp only [hm, Bool.false_eq_true, ↓reduceIte]; exact failTG_shift ps' s
+  | ci x =>
+    simp only [LG.step]
+    rw [eCI]
+    by_cases hm : startsWithAtCI inp' x c'.pos = true
+    · simp only [hm, ↓reduceIte]
+      exact ⟨_, ps', rfl, s.setPos (by omega), rfl⟩
+    · simp only [hm, Bool.false_eq_true, ↓reduceIte]; exact failTG_shift ps' s
+  | range a b =>
+    simp only [LG.step]
+    rw [eGet]
+    cases inp'[c'.pos]? with
+    | none => exact failTG_shift ps' s
+    | some x =>
+      simp only []
+      by_cases hm : L1.inRange a b x = true
+      · simp only [hm, ↓reduceIte]
+        exact ⟨_, ps', rfl, s.setPos (by omega), rfl⟩
+      · simp only [hm, Bool.false_eq_true, ↓reduceIte]; exact failTG_shift ps' s
+  | ident name tag =>
+    simp only [LG.step]
+    exact withTagG_shift tag s _ _ (fun d d' sd => callRuleG_shift g hg h name ps' sd)
+  | rule name mod sm body =>
+    simp only [LG.step]
+    simp only [soiFree] at hf
+    by_cases hE : (name == "EOI" || !hasBit mod SILENT || L1.ruleScoped name mod) = true
+    · simp only [hE, ↓reduceIte]; rfl
+    · simp only [hE, Bool.false_eq_true, ↓reduceIte]
+      exact h body c c' ps' hf s
+  | seq es =>
+    simp only [soiFree] at hf
+    exact seqG_shift g hg h n es c c' ps' ((soiFreeL_iff es).1 hf) s
+  | choice es =>
+    simp only [soiFree] at hf
+    exact choiceG_shift h es c c' ps' ((soiFreeL_iff es).1 hf) s
+  | opt e =>
+    simp only [LG.step]
+    simp only [soiFree] at hf
+    have he := h e _ _ [] hf s.checkpoint
+    simp only [shiftL] at he
+    revert he
+    cases r e c.checkpoint [] with
+    | oof => intro he; simp only [ResRelG] at he; simp only [he]; rfl
+    | exc x => intro he; simp only [ResRelG] at he; simp only [he]; rfl
+    | done m c1 tmp =>
+      intro he
+      obtain ⟨c1', tmp', e', s1, htmp⟩ := he
+      simp only [e']
+      cases m with
+      | true => exact ⟨_, _, rfl, s1.ok, by rw [shiftL_append, htmp]⟩
+      | false => exact ⟨_, ps', rfl, s1.restore, rfl⟩
+  | rep e =>
+    simp only [soiFree] at hf
+    exact repLoopG_shift g hg h e hf n n true c c' ps' s
+  | rep1 e =>
+    simp only [soiFree] at hf
+    exact seqG_shift g hg h n [e, .rep e] c c' ps' (by simp [soiFree, hf]) s
+  | repExact e m =>
+    simp only [soiFree] at hf
+    exact seqG_shift g hg h n (List.replicate m e) c c' ps'
+      (by intro x hx; rw [(List.mem_replicate.1 hx).2]; exact hf) s
+  | repMin e m =>
+    simp only [soiFree] at hf
+    refine seqG_shift g hg h n (List.replicate m e ++ [.rep e]) c c' ps' ?_ s
+    intro x hx
+    rcases List.mem_append.1 hx with hx | hx
+    · rw [(List.mem_replicate.1 hx).2]; exact hf
+    · simp only [List.mem_singleton] at hx; rw [hx]; simpa [soiFree] using hf
+  | repMax e m =>
+    simp only [soiFree] at hf
+    refine seqG_shift g hg h n (List.replicate m (.opt e)) c c' ps' ?_ s
+    intro x hx; rw [(List.mem_replicate.1 hx).2]; simpa [soiFree] using hf
+  | repMinMax e m m2 =>
+    simp only [soiFree] at hf
+    refine seqG_shift g hg h n (List.replicate m e ++ List.replicate (m2 - m) (.opt e)) c c' ps' ?_ s
+    intro x hx
+    rcases List.mem_append.1 hx with hx | hx
+    · rw [(List.mem_replicate.1 hx).2]; exact hf
+    · rw [(List.mem_replicate.1 hx).2]; simpa [soiFree] using hf
+  | andP e =>
+    simp only [LG.step]
+    simp only [soiFree] at hf
+    have he := h e _ _ [] hf s.checkpoint
+    simp only [shiftL] at he
+    revert he
+    cases r e c.checkpoint [] with
+    | oof => intro he; simp only [ResRelG] at he; simp only [he]; rfl
+    | exc x => intro he; simp only [ResRelG] at he; simp only [he]; rfl
+    | done m c1 tmp =>
+      intro he
+      obtain ⟨c1', tmp', e', s1, htmp⟩ := he
+      simp only [e']
+      exact ⟨_, ps', rfl, s1.restore, rfl⟩
+  | notP e =>
+    simp only [LG.step]
+    simp only [soiFree] at hf
+    have sc : ShiftRel k { c.checkpoint with negDepth := c.checkpoint.negDepth + 1 }
+        { c'.checkpoint with negDepth := c'.checkpoint.negDepth + 1 } := by
+      have hn : c.checkpoint.negDepth = c'.checkpoint.negDepth := s.checkpoint.nd
+      rw [hn]; exact s.checkpoint.setNeg _
+    have he := h e _ _ [] hf sc
+    simp only [shiftL] at he
+    revert he
+    cases r e { c.checkpoint with negDepth := c.checkpoint.negDepth + 1 } [] with
+    | oof => intro he; simp only [ResRelG] at he; simp only [he]; rfl
+    | exc x => intro he; simp only [ResRelG] at he; simp only [he]; rfl
+    | done m c1 tmp =>
+      intro he
+      obtain ⟨c1', tmp', e', s1, htmp⟩ := he
+      simp only [e']
+      have sr := s1.restore
+      cases m with
+      | false =>
+        simp only [Bool.false_eq_true, ↓reduceIte]
+        refine ⟨_, ps', rfl, ?_, rfl⟩
+        have hn : c1.restore.negDepth = c1'.restore.negDepth := sr.nd
+        rw [hn]; exact sr.setNeg _
+      | true =>
+        simp only [↓reduceIte]
+        rcases fail_shift sr (L1.failedName e) true with ⟨h1, h2⟩ | ⟨d, d', h1, h2, sd⟩
+        · simp only [h1, h2]; rfl
+        · simp only [h1, h2]
+          refine ⟨_, ps', rfl, ?_, rfl⟩
+          rw [sd.nd]; exact sd.setNeg _
+  | group e tag =>
+    simp only [LG.step]
+    simp only [soiFree] at hf
+    exact withTagG_shift tag s _ _ (fun d d' sd => h e d d' ps' hf sd)
+  | push e =>
+    simp only [LG.step]
+    simp only [soiFree] at hf
+    have he := h e c c' ps' hf s
+    revert he
+    cases r e c (shiftL k ps') with
+    | oof => intro he; simp only [ResRelG] at he; simp only [he]; rfl
+    | exc x => intro he; simp only [ResRelG] at he; simp only [he]; rfl
+    | done m c1 ps1 =>
+      intro he
+      obtain ⟨c1', ps1', e', s1, hps⟩ := he
+      simp only [e']
+      cases m with
+      | false => exact ⟨_, ps1', rfl, s1, hps⟩
+      | true =>
+        simp only []
+        refine ⟨_, ps1', rfl, ?_, hps⟩
+        have e1 : slice inp c.pos c1.pos = slice inp' c'.pos c1'.pos := by
+          rw [hpos, s1.pos, slice_shift hS]
+        rw [e1, s1.us]
+        exact s1.setUstack _
+  | pushLit x =>
+    simp only [LG.step]
+    refine ⟨_, ps', rfl, ?_, rfl⟩
+    rw [s.us]; exact s.setUstack _
+  | peekSlice a b =>
+    simp only [LG.step, LG.matchAllG]
+    rw [eMA, eItems]
+    cases L1.matchAll inp' (pySlice c'.ustack.items.reverse a b) c'.pos with
+    | none => exact failTG_shift ps' s
+    | some q => exact ⟨_, ps', rfl, s.setPos rfl, rfl⟩
+  | peek =>
+    simp only [LG.step]
+    rw [ePeek]
+    cases c'.ustack.peek with
+    | none => exact ⟨c', ps', rfl, s, rfl⟩
+    | some v =>
+      simp only []
+      rw [eSW]
+      by_cases hm : startsWithAt inp' v c'.pos = true
+      · simp only [hm, ↓reduceIte]
+        exact ⟨_, ps', rfl, s.setPos (by omega), rfl⟩
+      · simp only [hm, Bool.false_eq_true, ↓reduceIte]; exact failTG_shift ps' s
+  | peekAll =>
+    simp only [LG.step, LG.matchAllG]
+    rw [eMA, eItems]
+    cases L1.matchAll inp' c'.ustack.items c'.pos with
+    | none => exact failTG_shift ps' s
+    | some q => exact ⟨_, ps', rfl, s.setPos rfl, rfl⟩
+  | pop =>
+    simp only [LG.step]
+    rw [ePeek]
+    cases c'.ustack.peek with
+    | none => exact ⟨c', ps', rfl, s, rfl⟩
+    | some v =>
+      simp only []
+      rw [eSW]
+      by_cases hm : startsWithAt inp' v c'.pos = true
+      · simp only [hm, ↓reduceIte]
+        rw [ePop]
+        cases c'.ustack.pop with
+        | none => rfl
+        | some q =>
+          obtain ⟨x, us⟩ := q
+          exact ⟨_, ps', rfl, (s.setUstack us).setPos (by omega), rfl⟩
+      · simp only [hm, Bool.false_eq_true, ↓reduceIte]; exact failTG_shift ps' s
+  | popAll =>
+    simp only [LG.step, LG.matchAllG]
+    rw [eMA, eItems]
+    cases L1.matchAll inp' c'.ustack.items c'.pos with
+    | none => exact failTG_shift ps' s
+    | some q =>
+      simp only [Option.map_some]
+      rw [s.us]
+      exact ⟨_, ps', rfl, (s.setUstack _).setPos rfl, rfl⟩
+  | drop =>
+    simp only [LG.step]
+    rw [ePop]
+    cases c'.ustack.pop with
+    | none => exact failTG_shift ps' s
+    | some q =>
+      obtain ⟨x, us⟩ := q
+      exact ⟨_, ps', rfl, s.setUstack us, rfl⟩
+  | anyB =>
+    simp only [LG.step]
+    have hsz := hS.size
+    by_cases hm : c'.pos < inp'.size
+    · have hm' : c.pos < inp.size := by omega
+      simp only [hm, hm', ↓reduceIte]
+      exact ⟨_, ps', rfl, s.setPos (by omega), rfl⟩
+    · have hm' : ¬ c.pos < inp.size := by omega
+      simp only [hm, hm', ↓reduceIte]
+      exact ⟨c', ps', rfl, s, rfl⟩
+  | soiB => simp [soiFree] at hf
+  | eoiB =>
+    simp only [LG.step]
+    have hsz := hS.size
+    have : (c.pos == inp.size) = (c'.pos == inp'.size) := by
+      rw [Bool.eq_iff_iff]; simp only [beq_iff_eq]; omega
+    rw [this]
+    exact ⟨c', ps', rfl, s, rfl⟩
+  | uprop nm =>
+    simp only [LG.step]
+    rw [eGet]
+    cases inp'[c'.pos]? with
+    | none => exact ⟨c', ps', rfl, s, rfl⟩
+    | some x =>
+      simp only []
+      by_cases hm : g.uprop nm x = true
+      · simp only [hm, ↓reduceIte]
+        exact ⟨_, ps', rfl, s.setPos (by omega), rfl⟩
+      · simp only [hm, Bool.false_eq_true, ↓reduceIte]; exact ⟨c', ps', rfl, s, rfl⟩
+  | skipUntil subs =>
+    simp only [LG.step]
+    have e1 : L1.skipUntilPos inp subs c.pos = L1.skipUntilPos inp' subs c'.pos + k := by
+      rw [hpos, skipUntilPos_shift hS]
+    rw [e1]
+    exact ⟨_, ps', rfl, s.setPos rfl, rfl⟩
+  | optChoice alts star =>
+    simp only [LG.step]
+    have e1 : L1.optMatch g inp alts star c.pos = (L1.optMatch g inp' alts star c'.pos).map (· + k) := by
+      rw [hpos, optMatch_shift hS]
+    rw [e1]
+    cases L1.optMatch g inp' alts star c'.pos with
+    | none => exact ⟨c', ps', rfl, s, rfl⟩
+    | some q => exact ⟨_, ps', rfl, s.setPos rfl, rfl⟩
+
+/-- **shift invariance of the generated-code model**, every expression, every fuel -/
+theorem runG_shift (hS : Shifted k inp inp') (hg : SOIFree g) :
+    ∀ n, ShiftGoodG k (LG.run g inp n) (LG.run g inp' n) := by
+  intro n
+  induction n with
+  | zero => intro e c c' ps' _ _; rfl
+  | succ n ih => exact stepG_shift g hS hg n ih
+
+end lg
+
 end Pest
